@@ -118,6 +118,9 @@ def edit_torrent(metafile: str, args: dict) -> dict:
 
     meta["info"] = dict(sorted(info.items()))
     meta = dict(sorted(meta.items()))
-    os.remove(metafile)
-    pyben.dump(meta, metafile)
+    encoded = pyben.dumps(meta)
+    tempfile = str(metafile) + ".tmp"
+    with open(tempfile, "wb") as fd:
+        fd.write(encoded)
+    os.replace(tempfile, metafile)
     return meta
